@@ -542,7 +542,8 @@ pub fn decode(data: &[u8], filter: &StreamFilter) -> Result<Vec<u8>> {
 pub fn encode(data: &[u8], filter: &StreamFilter) -> Result<Vec<u8>> {
     // the decoders undo the predictor their parameters name: data encoded without it would not come back
     if let StreamFilter::LZWDecode(ref params) | StreamFilter::FlateDecode(ref params) = *filter {
-        if params.predictor == 2 || params.predictor >= 10 {
+        // (the decoder leaves the data alone for 0, 1 and the undefined values 3 .. 9 only; a negative number is a large one there)
+        if !(0 .. 10).contains(&params.predictor) || params.predictor == 2 {
             bail!("encoding with predictor {} is not supported", params.predictor);
         }
     }
